@@ -83,6 +83,11 @@ CLAIMED = {
   "Trusted: Lean kernel + standard axioms; translator; the end-to-end part rests on the correspondence and the packaging-based oracle (a proof needs the pattern-level composition of C02). Patterns outside the README shapes: known finding F-C15-odd-shapes.",
   "Lean 4 proof of the table-level facts + kernel evaluation per README pattern; end-to-end by correspondence and packaging oracle",
   "DESIGN.md section 7, C15"),
+ "C08": (
+  "Lean 4 theorems C08_* about the version state (config value, tag list) under ANY sequence of update invocations of ANY length: consistency (config valid, no tag above it) is an invariant of every invocation, successful steps strictly increase (C16 order), failed ones change nothing, `show` agrees with the config, the newest tag is the config version when tagging, a further update is always possible — by induction over the operation list, built on C09's startVersion and C01's gate; the file side is C03/C06 and the commit/tag side C10. PARTIAL: real git is exercised, not modelled: seeded histories (random flags, non-decreasing dates, failing invocations, --no-commit/--no-tag-commit, unrelated commits, branch switches) run against real git; after each step config, every occurrence (re-materialised from an independently tracked reference state), `show`, tags, commit count and commit contents are checked, and the model's hstep is run on the same history (op history).",
+  "Trusted: Lean kernel + standard axioms; git itself (exercised); the reference state tracker harness/refimpl.py judges the implementation. Tag names git refuses (patterns with ~ ^ : ? * [ \\ or blanks) cannot be tagged at all and are excluded from the histories.",
+  "Lean 4 proof (invariant by induction over histories; refinement of C01/C09) + real-git history runs",
+  "DESIGN.md section 7, C08"),
 }
 
 PENDING_REASON = "not yet covered: model/theorems for this property are still being built (see DESIGN.md section 10 for the order of work); no check is claimed until its theorems are proved and tied to the code"
